@@ -441,7 +441,7 @@ def gen_sessions(tier, r):
     of a test, the probes of an invariant test, successive runs) and a sequence of path
     conditions solved in it.  Path ids restart / repeat, so files named like the current
     query's are usually there already, left by a DIFFERENT query."""
-    n = 16 if tier == "quick" else 300
+    n = 32 if tier == "quick" else 300
     sessions = []
     for si in range(n):
         pre = []
@@ -642,6 +642,10 @@ def run(rep, tier):
         if exe is None:
             rep.fail("broken-tie", "extracted model driver does not build: " + log[-400:], case={})
     m = Model(exe) if exe is not None else None
+    if m is not None and not all(t.get("ok") for t in b["translators"]):
+        # a translator no longer understands the source (reported by standard_obligations): coq/Gen is
+        # stale, so the extracted model is not a model of THIS source; keep to spec-vs-implementation
+        m = None
     r = common.rng(PID)
     nfail = [0]
     # development aid: VERIF_C04_ONLY=fs,l3 restricts the correspondence run to some families
@@ -651,9 +655,13 @@ def run(rep, tier):
     def fam_on(fam):
         return not only or fam in only
 
+    nkind = {}
+
     def fail(kind, what, case, **kw):
+        # at most 12 failing inputs and 6 broken ties are written out (one kind must not crowd out the other)
         nfail[0] += 1
-        if nfail[0] <= 12:
+        nkind[kind] = nkind.get(kind, 0) + 1
+        if nkind[kind] <= (12 if kind == "failing-input" else 6):
             rep.fail(kind, what, case=case, **kw)
 
     phase("build")
